@@ -92,12 +92,16 @@ def quicksort(data):
 
 
 def _quicksort(data, start, end):
-    if start < end:  # If there are two or more elements...
+    # recurse into the smaller part and loop over the larger one: the recursion
+    # depth stays below log2(n) also for already ordered input
+    while start < end:  # If there are two or more elements...
         split = partition(data, start, end)  # ... partition the subdata...
-        _quicksort(data, start, split-1)  # ... and sort both halves.
-        _quicksort(data, split+1, end)
-    else:
-        return
+        if split - start < end - split:
+            _quicksort(data, start, split-1)
+            start = split + 1
+        else:
+            _quicksort(data, split+1, end)
+            end = split - 1
 
 
 def partition(data, start, end):
@@ -201,11 +205,13 @@ def partition_keyvalue(keys, data, start, end):
 
 
 def _quicksort_keyvalue(keys, data, start, end):
-    if start < end:   # If there are two or more elements...
+    # smaller part by recursion, larger part by iteration (see _quicksort)
+    while start < end:   # If there are two or more elements...
         # ... partition the subdata...
         split = partition_keyvalue(keys, data, start, end)
-        # ... and sort both halves.
-        _quicksort_keyvalue(keys, data, start, split-1)
-        _quicksort_keyvalue(keys, data, split+1, end)
-    else:
-        return
+        if split - start < end - split:
+            _quicksort_keyvalue(keys, data, start, split-1)
+            start = split + 1
+        else:
+            _quicksort_keyvalue(keys, data, split+1, end)
+            end = split - 1
